@@ -1441,9 +1441,8 @@ class Project:
         logger.info("Update cache...")
         start = time.time()
         cache = self._read_cache()
-        cached_ids = set(self._sp_cache)
         self._update_in_memory_cache()
-        if cache is None or set(cache) != cached_ids:
+        if cache is None or set(cache) != set(self._sp_cache):
             fn_cache = self.fn(self.FN_CACHE)
             fn_cache_tmp = fn_cache + "~"
             try:
